@@ -485,6 +485,12 @@ package tex
 //@   ensures result != nil && isfresh(result) && result.buf == buf && result.off == 0 && result.lastRead == 0
 //@   modifies region($alloc)
 //
+//@ func NewBufferString
+//@   property C11
+//@   ensures #fresh result != nil && isfresh(result) && result.off == 0 && result.lastRead == 0 && bvalid(result)
+//@   ensures #content blen(result) == len(s) && forall i int :: { at(result, i) } 0 <= i && i < len(s) ==> at(result, i) == s[i]
+//@   modifies region($alloc)
+//
 //@ func Buffer.String
 //@   property C11
 //@   requires b != nil ==> bvalid(b)
